@@ -56,7 +56,7 @@ Proof.
     destruct s as [|e s]; cbn in Hp, Hq; [discriminate|].
     destruct (ascii_dec c e) as [->|]; [|discriminate].
     destruct (ascii_dec d e) as [->|]; [|discriminate].
-    cbn. destruct (ascii_dec e e); [|congruence]. eauto.
+    cbn. destruct (ascii_dec e e); [|congruence]. exact (IH q s Hp Hq).
 Qed.
 
 Lemma sall_app p a b : sall p (a ++ b) = sall p a && sall p b.
@@ -1458,3 +1458,263 @@ Proof.
     { apply (f_prim_returns cf s Local k None) in H. eapply fi_word; eauto. eapply fi_cover; eauto. }
     split; [exact W | now apply word_not_qualified].
 Qed.
+
+(* ------------------------------------------------------------------ C13: legality and reserved names (Fortran) *)
+
+(* split at the FIRST underscore *)
+Fixpoint us_split (s : string) : option (string * string) :=
+  match s with
+  | EmptyString => None
+  | String c r => if is_us c then Some (EmptyString, r)
+                  else match us_split r with Some (h, t) => Some (String c h, t) | None => None end
+  end.
+
+Lemma us_split_some s h t :
+  us_split s = Some (h, t) -> s = h ++ "_" ++ t /\ sall (fun c => negb (is_us c)) h = true.
+Proof.
+  revert h; induction s as [|c s IH]; intros h H; cbn in H; [discriminate|].
+  destruct (is_us c) eqn:U.
+  - injection H as <- <-. apply is_us_eq in U. subst. auto.
+  - destruct (us_split s) as [[h' t']|]; [|discriminate]. injection H as <- <-.
+    destruct (IH _ eq_refl) as [-> Hh]. cbn. now rewrite U, Hh.
+Qed.
+
+(* what the generated module keeps for itself: everything in the "dagrt_" name space and its entry points;
+   Fortran compares names without regard to case *)
+Definition f_reserved (v : string) : bool :=
+  prefix (lower f_internal_prefix) (lower v) || existsb (String.eqb (lower v)) (map lower f_entry_points).
+
+Definition head_ok (hh : string) : bool :=
+  let h := lower (hh ++ "_") in
+  negb (prefix h (lower f_internal_prefix)) && negb (prefix (lower f_internal_prefix) h)
+  && forallb (fun r => negb (prefix h r)) (map lower f_entry_points).
+
+(* a tag/prefix t whose sanitised form is  <letters...>_<...>  *)
+Definition tag_ok (t : string) : bool :=
+  match us_split (lstrip_us (smap sanitise_char t)) with
+  | Some (hh, _) => first_is is_letter hh && head_ok hh
+  | None => false
+  end.
+Definition tag_first (t : string) : bool := first_is is_letter (lstrip_us (smap sanitise_char t)).
+
+Lemma prefix_lower p v : prefix p v = true -> prefix (lower p) (lower v) = true.
+Proof. intros H. apply prefix_split in H as [r ->]. rewrite lower_app. apply prefix_app. Qed.
+
+Lemma first_is_nonempty p s : first_is p s = true -> s <> "".
+Proof. destruct s; cbn; congruence. Qed.
+
+Lemma tag_first_legal t r v :
+  tag_first t = true -> out_shape "" (make_identifier (t ++ r)) v -> f_name_chars v = true.
+Proof.
+  unfold tag_first. intros F S. pose proof (first_is_nonempty _ _ F) as Ne.
+  unfold f_name_chars. apply andb_true_iff. split.
+  - eapply out_shape_first; [|exact S]. cbn. rewrite make_identifier_tag by exact Ne. now apply first_is_app.
+  - eapply out_shape_word; [|exact S]. cbn. apply make_identifier_word.
+Qed.
+
+Lemma tag_ok_first t : tag_ok t = true -> tag_first t = true.
+Proof.
+  unfold tag_ok, tag_first. destruct (us_split _) as [[hh rest]|] eqn:E; [|discriminate].
+  rewrite andb_true_iff. intros [F _]. apply us_split_some in E as [-> _]. now apply first_is_app.
+Qed.
+
+Lemma tag_ok_unreserved t r v :
+  tag_ok t = true -> out_shape "" (make_identifier (t ++ r)) v -> f_reserved v = false.
+Proof.
+  intros T S. pose proof (tag_ok_first _ T) as F. unfold tag_first in F. apply first_is_nonempty in F.
+  unfold tag_ok in T. destruct (us_split _) as [[hh rest]|] eqn:E; [|discriminate].
+  apply andb_true_iff in T as [_ T]. unfold head_ok in T. rewrite !andb_true_iff, !negb_true_iff in T.
+  destruct T as [[T1 T2] T3]. pose proof (us_split_some _ _ _ E) as [Eq Hh].
+  assert (P : prefix (hh ++ "_") v = true).
+  { eapply out_shape_head_us with (x := rest ++ smap sanitise_char r); [exact Hh | | exact S].
+    cbn. rewrite make_identifier_tag by exact F. rewrite Eq, !app_assoc. reflexivity. }
+  apply prefix_lower in P. unfold f_reserved. apply orb_false_iff. split.
+  - eapply incomparable_prefix_false; [exact T1 | exact T2 | exact P].
+  - eapply not_in_by_prefix; [exact T3 | exact P].
+Qed.
+
+Lemma f_tags_ok :
+  tag_ok f_local_prefix = true /\ tag_ok f_unique_prefix = true /\ forallb tag_ok state_prefixes = true /\
+  tag_first f_internal_prefix = true /\
+  forallb (fun k => first_is is_letter (make_identifier k)) state_exact = true /\
+  forallb (fun k => match assoc k f_global_start with Some _ => true | None => false end) state_exact = true /\
+  forallb (fun kv => f_name_chars (snd kv)) f_global_start = true.
+Proof. repeat split; reflexivity. Qed.
+
+(* which request produced a binding *)
+Definition f_shape (sp : space) (k v : string) : Prop :=
+  match sp with
+  | Local => out_shape "" (make_identifier (seed_of k (f_local_prefix_for k None))) v
+  | Global => In (k, v) f_global_start \/ (is_state_variable k = true /\ out_shape "" (make_identifier k) v)
+  | Function => out_shape "" (make_identifier k) v
+  end.
+Definition FShape (s : f_state) : Prop := forall sp k v, f_lookup s sp k = Some v -> f_shape sp k v.
+
+Lemma FShape_f0 : FShape f0.
+Proof.
+  intros sp k v H. destruct sp; [cbn in H; discriminate | | cbn in H; discriminate].
+  left. now apply assoc_in.
+Qed.
+
+Lemma FShape_step cf s op o s' :
+  FInv cf s -> FShape s -> f_op_wf op -> f_step cf s op = Ok (o, s') -> FShape s'.
+Proof.
+  intros I Sh Wf H. destruct (f_op_view cf op) as [[p ->]|[sp [k [p [q [E W]]]]]].
+  - apply f_unique_spec in H as [L _]. intros sp k v Hl. rewrite L in Hl. now apply Sh.
+  - specialize (W Wf). rewrite E in H. apply with_prefix_ok in H as [w [H _]].
+    apply f_prim_spec in H as [[_ ->]|[_ [L G]]]; [exact Sh|].
+    apply gen_call_spec in G as [S _]. rewrite (fi_fp _ _ I) in S.
+    intros sp' k' v' Hl. rewrite L in Hl. destruct (space_eqb sp' sp && String.eqb k' k) eqn:C; [|now apply Sh].
+    apply andb_true_iff in C as [C1 C2]. apply space_eqb_eq in C1. apply String.eqb_eq in C2. subst.
+    injection Hl as <-. destruct sp; cbn [f_prim_wf f_pfx f_shape] in *.
+    + now subst p.
+    + right. auto.
+    + exact S.
+Qed.
+
+Lemma F_run_inv cf ops : forall s outs s',
+  FInv cf s -> FShape s -> Forall f_op_wf ops -> f_run cf s ops = Ok (outs, s') -> FInv cf s' /\ FShape s'.
+Proof.
+  induction ops as [|op ops IH]; intros s outs s' I Sh Wf H; cbn in H.
+  - now injection H as <- <-.
+  - destruct (f_step cf s op) as [[o s1]| |] eqn:E; try discriminate.
+    destruct (f_run cf s1 ops) as [[os s2]| |] eqn:R; try discriminate. injection H as <- <-.
+    inversion Wf as [|? ? W1 W2]; subst.
+    eapply IH; [| | exact W2 | exact R]; [eapply FInv_step | eapply FShape_step]; eauto.
+Qed.
+
+(* states reached the way the Fortran generator uses the manager *)
+Definition f_reach_wf (cf : bool) (s : f_state) : Prop :=
+  exists ops outs, Forall f_op_wf ops /\ f_run cf f0 ops = Ok (outs, s).
+
+Lemma f_reach_wf_inv cf s : f_reach_wf cf s -> FInv cf s /\ FShape s.
+Proof. intros [ops [outs [W R]]]. eapply F_run_inv; eauto using FInv_f0, FShape_f0. Qed.
+
+Lemma is_state_cases k :
+  is_state_variable k = true ->
+  In k state_exact \/ exists t r, In t state_prefixes /\ k = t ++ r.
+Proof.
+  unfold is_state_variable. rewrite orb_true_iff. intros [H|H].
+  - left. apply existsb_exists in H as [x [Hx E]]. apply String.eqb_eq in E. now subst.
+  - right. apply existsb_exists in H as [t [Ht P]]. apply prefix_split in P as [r ->]. eauto.
+Qed.
+
+Lemma f_local_seed k :
+  (prefix f_internal_prefix k = false /\ seed_of k (f_local_prefix_for k None) = f_local_prefix ++ k) \/
+  (exists r, k = f_internal_prefix ++ r /\ seed_of k (f_local_prefix_for k None) = f_internal_prefix ++ r).
+Proof.
+  unfold f_local_prefix_for, seed_of. destruct (prefix f_internal_prefix k) eqn:P; cbn [negb].
+  - right. apply prefix_split in P as [r E]. exists r. split; [exact E | exact E].
+  - left. split; reflexivity.
+Qed.
+
+(* letter first, then letters/digits/underscores -- for variables; function names only get the characters *)
+Theorem f_legal_chars s sp k v :
+  FShape s -> f_lookup s sp k = Some v ->
+  match sp with
+  | Local | Global => f_name_chars v = true
+  | Function => sall is_word v = true
+  end.
+Proof.
+  intros Sh H. specialize (Sh _ _ _ H). destruct f_tags_ok as [TL [_ [TS [TI [TE [_ TG]]]]]].
+  destruct sp; cbn [f_shape] in Sh.
+  - destruct (f_local_seed k) as [[_ E]|[r [_ E]]]; rewrite E in Sh.
+    + eapply tag_first_legal; [apply tag_ok_first, TL | exact Sh].
+    + eapply tag_first_legal; [exact TI | exact Sh].
+  - destruct Sh as [Sh|[St Sh]].
+    + rewrite forallb_forall in TG. exact (TG _ Sh).
+    + apply is_state_cases in St as [Ex|[t [r [Ht ->]]]].
+      * rewrite forallb_forall in TE. specialize (TE _ Ex). unfold f_name_chars. apply andb_true_iff. split.
+        -- eapply out_shape_first; [|exact Sh]. exact TE.
+        -- eapply out_shape_word; [|exact Sh]. apply make_identifier_word.
+      * rewrite forallb_forall in TS. eapply tag_first_legal; [apply tag_ok_first, TS, Ht | exact Sh].
+  - eapply out_shape_word; [|exact Sh]. apply make_identifier_word.
+Qed.
+
+(* user variables (keys outside "dagrt_") and persistent names other than <t>, <dt> stay out of the generator's
+   own name space and away from the entry points *)
+Theorem f_reserved_ok s sp k v :
+  FShape s -> f_lookup s sp k = Some v ->
+  match sp with
+  | Local => prefix f_internal_prefix k = false -> f_reserved v = false
+  | Global => assoc k f_global_start = None -> f_reserved v = false
+  | Function => True
+  end.
+Proof.
+  intros Sh H. specialize (Sh _ _ _ H). destruct f_tags_ok as [TL [_ [TS [_ [_ [TX _]]]]]].
+  destruct sp; cbn [f_shape] in Sh; [| |exact I].
+  - intros P. destruct (f_local_seed k) as [[_ E]|[r [-> _]]].
+    + rewrite E in Sh. eapply tag_ok_unreserved; [exact TL | exact Sh].
+    + now rewrite prefix_app in P.
+  - intros N. destruct Sh as [Sh|[St Sh]]; [now apply in_assoc_some in Sh|].
+    apply is_state_cases in St as [Ex|[t [r [Ht ->]]]].
+    + rewrite forallb_forall in TX. specialize (TX _ Ex). now rewrite N in TX.
+    + rewrite forallb_forall in TS. eapply tag_ok_unreserved; [apply TS, Ht | exact Sh].
+Qed.
+
+Theorem f_unique_legal cf s p o s' :
+  FInv cf s -> f_step cf s (FUnique p) = Ok (o, s') -> f_name_chars o = true /\ f_reserved o = false.
+Proof.
+  intros I H. apply f_unique_spec in H as [_ G]. apply gen_call_spec in G as [S _]. rewrite (fi_fp _ _ I) in S.
+  destruct f_tags_ok as [_ [TU _]]. split.
+  - eapply tag_first_legal; [apply tag_ok_first, TU | exact S].
+  - eapply tag_ok_unreserved; [exact TU | exact S].
+Qed.
+
+(* --- what does NOT hold, on the real code as well (open findings) *)
+
+Fixpoint rep (n : nat) (c : ascii) : string := match n with O => EmptyString | S m => String c (rep m c) end.
+
+(* nothing bounds the length: a 58-character variable name becomes a 64-character identifier *)
+Lemma f_legal_length_refuted cf :
+  exists k v, f_outputs cf [FGetItem k] = Some [v] /\ f_name_chars v = true /\ f_identifier v = false.
+Proof.
+  exists (rep 58 "a"), (f_local_prefix ++ rep 58 "a"). destruct cf; repeat split; reflexivity.
+Qed.
+
+(* name_function does not make its result start with a letter *)
+Lemma f_legal_function_refuted cf :
+  exists k v, f_outputs cf [FFunction k] = Some [v] /\ f_name_chars v = false.
+Proof. exists "1f", "1f". destruct cf; split; reflexivity. Qed.
+
+(* a user variable whose name starts with "dagrt_" is taken as is: it can be one of the generator's own
+   identifiers, or the reference counter of another variable *)
+Lemma f_reserved_refuted cf :
+  exists k v, f_outputs cf [FGetItem k] = Some [v] /\ f_reserved v = true /\ In v f_own_tokens.
+Proof. exists "dagrt_state", "dagrt_state". destruct cf; repeat split; try reflexivity; cbn; tauto. Qed.
+
+Lemma f_refcount_shared_refuted cf :
+  exists k1 k2 v, f_outputs cf [FGetItem k1; FRefcount k2 true] = Some [v; v].
+Proof. exists "dagrt_refcnt_x", "x", "dagrt_refcnt_x". destruct cf; reflexivity. Qed.
+
+(* ------------------------------------------------------------------ examples (Fortran) *)
+
+Example ex_f_run :
+  f_outputs true [FGetItem "y"; FGetItem "Y"; FGetItem "<state>y^"; FGetItem "<state>y*"; FGetItem "y_1";
+                  FFunction "lploc_y"; FUnique "y"; FUnique "y"; FRefcount "y" true; FGetItem "Y"; FGetItem "<t>"]
+  = Some ["lploc_y"; "lploc_Y_0"; "dagrt_state%state_y_"; "dagrt_state%state_y__0"; "lploc_y_1";
+          "lploc_y_2"; "drtf_y"; "drtf_y_0"; "dagrt_refcnt_y"; "lploc_Y_0"; "dagrt_state%dagrt_t"].
+Proof. reflexivity. Qed.
+
+Example ex_f_run_plain :
+  f_outputs false [FGetItem "y"; FGetItem "Y"; FFunction "lploc_y"]
+  = Some ["lploc_y"; "lploc_Y"; "lploc_y_0"].
+Proof. reflexivity. Qed.
+
+Example ex_f_reach_wf cf :
+  exists s, f_reach_wf cf s /\ f_lookup s Local "y" = Some "lploc_y" /\ f_lookup s Global "<p>y" = Some "p_y".
+Proof.
+  destruct (f_run cf f0 [FGetItem "y"; FGetItem "<p>y"]) as [[o s]| |] eqn:E;
+    try (destruct cf; vm_compute in E; discriminate).
+  exists s. split.
+  - exists [FGetItem "y"; FGetItem "<p>y"], o. split; [repeat constructor | exact E].
+  - destruct cf; vm_compute in E; injection E as _ <-; split; reflexivity.
+Qed.
+
+Example ex_gen_call :
+  gen_call false (mkGen "local" ["localy_1"; "localy"] [("localy", 2%N)]) "y_1"
+  = Ok ("localy_2", mkGen "local" ["localy_2"; "localy_1"; "localy"] [("localy", 3%N); ("localy", 2%N)]).
+Proof. reflexivity. Qed.
+
+Example ex_wf_ops : Forall f_op_wf [FGetItem "x"; FGlobal "<state>y"; FLocal "z" None; FUnique "tmp"; FRefcount "x" true].
+Proof. repeat constructor. Qed.
